@@ -1,6 +1,7 @@
 package main
 
 import (
+	"regexp"
 	"fmt"
 	"go/token"
 	"go/types"
@@ -15,6 +16,23 @@ var errCount int
 func newErr(msg string, wraps ...Value) Iface {
 	errCount++
 	return Iface{t: errType, v: &OpaqueErr{msg: msg, wraps: wraps, id: errCount}}
+}
+
+// concreteString returns the Go string of s when its length and all bytes are constants.
+func (m *Machine) concreteString(s Str) (string, bool) {
+	if s.n == nil || !s.n.IsConst() {
+		return "", false
+	}
+	n := int(s.n.val)
+	b := make([]byte, n)
+	for i := 0; i < n; i++ {
+		t := Select(s.arr, Bin("bvadd", s.off, I64(int64(i))))
+		if !t.IsConst() {
+			return "", false
+		}
+		b[i] = byte(t.val)
+	}
+	return string(b), true
 }
 
 func (m *Machine) goString(s Str) string {
@@ -296,6 +314,29 @@ func errorfStub(m *Machine, caller *frame, fn *ssa.Function, args []Value, pos t
 	return newErr("errorf:"+m.goString(args[0].(Str)), wraps...)
 }
 
+// countByteStub: bytealg.Count/CountString(b, c) as the obvious loop, forking on comparisons with symbolic bytes.
+func countByteStub(m *Machine, caller *frame, fn *ssa.Function, args []Value, pos token.Pos) Value {
+	var arr, off, nT *Term
+	switch b := args[0].(type) {
+	case BSlice:
+		if b.obj == nil {
+			return I64(0)
+		}
+		arr, off, nT = b.obj.arr, b.off, b.n
+	case Str:
+		arr, off, nT = b.arr, b.off, b.n
+	}
+	n := m.ex.Concretize(nT, 1<<16, "Count len")
+	c := args[1].(*Term)
+	cnt := 0
+	for k := 0; k < n; k++ {
+		if m.ex.Branch(Eq(Select(arr, Bin("bvadd", off, I64(int64(k)))), c), "Count") {
+			cnt++
+		}
+	}
+	return I64(int64(cnt))
+}
+
 func indexByteStub(m *Machine, caller *frame, fn *ssa.Function, args []Value, pos token.Pos) Value {
 	var arr, off, nT *Term
 	switch b := args[0].(type) {
@@ -349,8 +390,46 @@ func init() {
 		"fmt.Errorf":                       errorfStub,
 		"internal/bytealg.IndexByte":       indexByteStub,
 		"internal/bytealg.IndexByteString": indexByteStub,
+		"(*strings.Builder).copyCheck":     nop,
+		"internal/bytealg.MakeNoZero": func(m *Machine, caller *frame, fn *ssa.Function, args []Value, pos token.Pos) Value {
+			n := args[0].(*Term)
+			m.noteAlloc(n, pos)
+			m.objCount++
+			return BSlice{&ByteObj{arr: ArrConst(0), size: n, id: m.objCount}, i64_0, n, n}
+		},
+		"internal/bytealg.Count":           countByteStub,
+		"internal/bytealg.CountString":     countByteStub,
+		// regexp with a constant pattern: compiled natively; matching is native too and therefore needs a concrete
+		// subject string (a symbolic subject is inconclusive, never guessed)
 		"regexp.MustCompile": func(m *Machine, caller *frame, fn *ssa.Function, args []Value, pos token.Pos) Value {
-			return (*Value)(nil)
+			pat, ok := m.concreteString(args[0].(Str))
+			if !ok {
+				return (*Value)(nil)
+			}
+			re, err := regexp.Compile(pat)
+			if err != nil {
+				return (*Value)(nil)
+			}
+			return &NativeRegexp{re}
+		},
+		"(*regexp.Regexp).FindStringSubmatch": func(m *Machine, caller *frame, fn *ssa.Function, args []Value, pos token.Pos) Value {
+			nr, ok := args[0].(*NativeRegexp)
+			if !ok {
+				panic(&Inconclusive{"regexp object not available"})
+			}
+			subj, ok := m.concreteString(args[1].(Str))
+			if !ok {
+				panic(&Inconclusive{"regexp match on a symbolic string"})
+			}
+			res := nr.re.FindStringSubmatch(subj)
+			if res == nil {
+				return VSlice{null: true}
+			}
+			out := VSlice{}
+			for _, r := range res {
+				out.data = append(out.data, m.strConst(r))
+			}
+			return out
 		},
 		"fmt.Sprintf": func(m *Machine, caller *frame, fn *ssa.Function, args []Value, pos token.Pos) Value {
 			f := m.goString(args[0].(Str))
